@@ -161,7 +161,7 @@ func replay(t *testing.T, tr *vhlib.Trace, ops []vhlib.ParsedLine) {
 		case "append":
 			w.doAppend(tr, op.Int("c"))
 		case "twin":
-			w.doTwin(tr, op.Int("batch"))
+			w.doTwin(tr, op.Int("batch"), op.Int("catchup") == 1)
 		case "endcheck":
 			w.doEndCheck(tr)
 		}
